@@ -1,4 +1,5 @@
 mod common;
+mod c04;
 mod c05;
 mod c12;
 mod c15;
@@ -18,6 +19,7 @@ fn main() {
         "replay" => {
             let (prop, cases, verd) = (&args[2], &args[3], &args[4]);
             match prop.as_str() {
+                "C04" => c04::replay(cases, verd),
                 "C05" => c05::replay(cases, verd),
                 "C12" => c12::replay(cases, verd),
                 "C15" => c15::replay(cases, verd),
@@ -35,6 +37,7 @@ fn main() {
             let n: usize = args[4].parse().unwrap();
             let out = &args[5];
             match sub.as_str() {
+                "C04" => c04::record(seed, n, out, args.get(6).and_then(|s| s.parse().ok()).unwrap_or(300)),
                 "C05" => c05::record(seed, n, out, args.get(6).and_then(|s| s.parse().ok()).unwrap_or(12)),
                 "C12" => c12::record(seed, n, out, args.get(6).and_then(|s| s.parse().ok()).unwrap_or(16)),
                 "C15" => c15::record(seed, n, out),
